@@ -171,6 +171,9 @@ func buildPay() *World {
 				t.AltSig = []int{1}
 				return t
 			}(),
+			// same threshold and weight vector, owners listed in another order: C's weight 2 goes to A
+			{Name: "M edit multisig: same threshold and weights, owners listed [C,B,A] (by[A,B])", Type: transaction.TypeEditMultisig, Multisig: &M, Signers: []*Key{A, B},
+				Data: transaction.EditMultisigData{Threshold: 2, Weights: []uint32{1, 1, 2}, Addresses: []types.Address{C.Addr, B.Addr, A.Addr}}},
 			// the size limits of payload (10000 bytes) and service data (128 bytes)
 			func() Tx { t := good; t.Name = "A send with a 10000-byte payload (the limit)"; t.Payload = make([]byte, 10000); return t }(),
 			func() Tx { t := good; t.Name = "A send with a 10001-byte payload"; t.Payload = make([]byte, 10001); return t }(),
